@@ -233,16 +233,120 @@ def rec_hook():
     return C19Rec
 
 
+def build_cparams(c):
+    hooks = [_import('pySDC.implementations.hooks.' + HOOK_MODULE[h], h) for h in c['hooks']] + [rec_hook()]
+    cparams = {'logger_level': 50, 'hook_class': hooks, 'dump_setup': False, 'mssdc_jac': c['mssdc_jac'], 'all_to_done': c['all_to_done']}
+    if c.get('predict_type') is not None:
+        cparams['predict_type'] = c['predict_type']
+    return cparams
+
+
 def make_controller(c, desc=None, cparams=None):
     from pySDC.implementations.controller_classes.controller_nonMPI import controller_nonMPI
     if desc is None:
         desc = build_description(c)
     if cparams is None:
-        hooks = [_import('pySDC.implementations.hooks.' + HOOK_MODULE[h], h) for h in c['hooks']] + [rec_hook()]
-        cparams = {'logger_level': 50, 'hook_class': hooks, 'dump_setup': False, 'mssdc_jac': c['mssdc_jac'], 'all_to_done': c['all_to_done']}
-        if c.get('predict_type') is not None:
-            cparams['predict_type'] = c['predict_type']
+        cparams = build_cparams(c)
     return controller_nonMPI(c['P'], cparams, desc), desc, cparams
+
+
+# ---------------------------------------------------------------------------------------- caller-owned dicts
+
+def _leaf(v):
+    import numpy as np
+    if isinstance(v, type):
+        return 'class:' + v.__module__ + '.' + v.__qualname__
+    if isinstance(v, float):
+        return 'f:' + v.hex()
+    if isinstance(v, np.ndarray):
+        return 'nd:%s:%s:%s' % (v.dtype, v.shape, np.ascontiguousarray(v).tobytes().hex())
+    if isinstance(v, (np.generic,)):
+        return 'np:%s:%s' % (v.dtype, np.asarray(v).tobytes().hex())
+    return '%s:%r' % (type(v).__name__, v)
+
+
+def _kname(k):
+    return ('class:' + k.__module__ + '.' + k.__qualname__) if isinstance(k, type) else str(k)
+
+
+def deep_snapshot(obj, path=''):
+    """path -> [kind, id (containers only), value]: structure, values and object identity of nested dicts / lists."""
+    out = {}
+    if isinstance(obj, dict):
+        out[path] = ['dict', id(obj), [_kname(k) for k in obj]]
+        for k, v in obj.items():
+            out.update(deep_snapshot(v, path + '/' + _kname(k)))
+    elif isinstance(obj, (list, tuple)):
+        out[path] = [type(obj).__name__, id(obj) if isinstance(obj, list) else None, len(obj)]
+        for i, v in enumerate(obj):
+            out.update(deep_snapshot(v, path + '/[%d]' % i))
+    else:
+        out[path] = ['leaf', None, _leaf(obj)]
+    return out
+
+
+DESC_DEFAULT_KEYS = ('problem_params', 'base_transfer_class', 'base_transfer_params', 'space_transfer_class', 'space_transfer_params')
+
+
+def dict_changes(before, after, which):
+    """Differences between two deep snapshots of a caller-owned dict, minus what the unchanged code is
+    documented to do: Step adds the five default keys to the description; Controller.__init__ replaces
+    controller_params['hook_class'] by [DefaultHooks, CPUTimings] + the user's list."""
+    ch = []
+    for pth in sorted(set(before) | set(after)):
+        top = pth.split('/')[1] if pth.count('/') >= 1 else ''
+        if which == 'controller_params' and top == 'hook_class':
+            continue
+        b, a = before.get(pth), after.get(pth)
+        if b is None:
+            if which == 'description' and top in DESC_DEFAULT_KEYS:
+                continue
+            ch.append({'path': pth, 'change': 'added', 'after': a[2]})
+        elif a is None:
+            ch.append({'path': pth, 'change': 'removed', 'before': b[2]})
+        elif b[0] != a[0] or b[2] != a[2]:
+            if which == 'description' and pth == '' and b[0] == a[0] == 'dict' and \
+                    [k for k in a[2] if k not in DESC_DEFAULT_KEYS] == [k for k in b[2] if k not in DESC_DEFAULT_KEYS]:
+                continue
+            ch.append({'path': pth, 'change': 'value', 'before': b[2], 'after': a[2]})
+        elif b[1] != a[1]:
+            ch.append({'path': pth, 'change': 'identity'})
+    return ch
+
+
+def hook_list_ok(before_list, after_list):
+    """Controller.__init__: controller_params['hook_class'] = [DefaultHooks, CPUTimings] + user list."""
+    names = [_kname(k) for k in after_list]
+    exp = ['class:pySDC.implementations.hooks.default_hook.DefaultHooks', 'class:pySDC.implementations.hooks.log_timings.CPUTimings'] + \
+          [_kname(k) for k in before_list]
+    return names == exp, names, exp
+
+
+class DictWatch:
+    """Watches the caller's description and controller_params over construction and run."""
+
+    def __init__(self, desc, cpar):
+        self.desc, self.cpar = desc, cpar
+        self.d0, self.c0 = deep_snapshot(desc), deep_snapshot(cpar)
+        self.h0 = list(cpar.get('hook_class', []))
+        self.found = []
+
+    def check(self, stage):
+        for which, obj, s0 in (('description', self.desc, self.d0), ('controller_params', self.cpar, self.c0)):
+            for ch in dict_changes(s0, deep_snapshot(obj), which):
+                self.found.append(dict(ch, stage=stage, dict=which))
+        ok, names, exp = hook_list_ok(self.h0, self.cpar.get('hook_class', []))
+        if not ok:
+            self.found.append({'path': '/hook_class', 'change': 'value', 'stage': stage, 'dict': 'controller_params', 'after': names, 'expected': exp})
+        # report each (dict, path, change) once
+        seen, out = set(), []
+        for f in self.found:
+            k = (f['dict'], f['path'], f['change'])
+            if k not in seen:
+                seen.add(k)
+                out.append(f)
+        self.found = out
+        return out
 
 
 def initial_value(ctrl, scale):
@@ -462,10 +566,14 @@ def scenario_case(sc):
     t0 = unhex(sc['t0'])
     Tend = unhex(sc['Tend'])
     out = {}
-    A, desc, cpar = make_controller(c)
+    desc, cpar = build_description(c), build_cparams(c)
+    watch = DictWatch(desc, cpar)
+    A, desc, cpar = make_controller(c, desc=desc, cparams=cpar)
+    watch.check('construction')
     u0 = initial_value(A, sc['scale'])
     u0_bytes = arr_hex(u0)
     base = do_run(A, u0, t0, Tend, want_snap=True)
+    out['dict_changes'] = watch.check('run')
     out['base'] = strip(base)
     out['u0_unchanged_after_run'] = (arr_hex(u0) == u0_bytes)
     if base['error']:
@@ -580,7 +688,72 @@ def scenario_pickle(sc):
     return out
 
 
-SCENARIOS = {'case': scenario_case, 'alone': scenario_alone, 'interleave': scenario_interleave, 'pickle': scenario_pickle}
+def apply_edit(c, desc, cpar, edit):
+    """The user's one-key change between two controllers built from the same dict objects.
+    Returns the configuration B the edited dicts describe."""
+    cb = json.loads(json.dumps(c))
+    kind = edit[0]
+    if kind == 'quad':
+        desc['sweeper_params']['quad_type'] = edit[1]
+        cb['quad'] = edit[1]
+    elif kind == 'guess':
+        desc['sweeper_params']['initial_guess'] = edit[1]
+        cb['guess'] = edit[1]
+    elif kind == 'drop_ccs':
+        desc.pop('convergence_controllers', None)
+        cb['ccs'] = []
+        cb['fixed_step'] = True
+    elif kind == 'sweeper':
+        cb['sweeper'] = edit[1]
+        cb['family'] = 'sdc'
+        desc['sweeper_class'] = build_description(cb)['sweeper_class']
+        # what the user has to add for the new sweeper; everything else stays as it is in the shared dict
+        desc['sweeper_params'].update({'num_nodes': cb['M'], 'quad_type': cb['quad'], 'QI': cb['QI'], 'initial_guess': cb['guess']})
+    elif kind == 'dt':
+        desc['level_params']['dt'] = edit[1]
+        cb['dt'] = edit[1]
+    elif kind == 'maxiter':
+        desc['step_params']['maxiter'] = edit[1]
+        cb['maxiter'] = edit[1]
+    elif kind == 'none':
+        pass
+    return cb
+
+
+def scenario_shared(sc):
+    """Composability of caller-owned dicts: B built from the SAME description / controller_params objects
+    that were used for controller A before (one key changed by the user)  vs  B built from fresh dicts
+    before anything else happened in the process."""
+    ca = sc['cfg']
+    out = {}
+    t0, Tend = unhex(sc['t0']), unhex(sc['Tend'])
+    # expected: configuration B from brand-new dicts in a clean process state
+    cb_expected = apply_edit(ca, build_description(ca), build_cparams(ca), sc['edit'])
+    Bf, _, _ = make_controller(cb_expected)
+    out['B_fresh'] = strip(do_run(Bf, initial_value(Bf, sc['scale']), t0, Tend))
+    out['B_fresh_hooks'] = [type(h).__name__ for h in Bf.hooks]
+    # A from dict objects X, Y
+    X, Y = build_description(ca), build_cparams(ca)
+    user_hooks = list(Y['hook_class'])
+    watch = DictWatch(X, Y)
+    A, _, _ = make_controller(ca, desc=X, cparams=Y)
+    watch.check('construction')
+    out['A'] = strip(do_run(A, initial_value(A, sc['scale']), t0, Tend))
+    out['dict_changes'] = watch.check('run')
+    # the user changes one key and builds B from the same objects (hook list: what the user passed originally
+    # if 'reset_hook_list', else whatever the dict holds now)
+    if sc.get('reset_hook_list'):
+        Y['hook_class'] = user_hooks
+    apply_edit(ca, X, Y, sc['edit'])
+    Bs, _, _ = make_controller(cb_expected, desc=X, cparams=Y)
+    out['B_shared'] = strip(do_run(Bs, initial_value(Bs, sc['scale']), t0, Tend))
+    out['B_shared_hooks'] = [type(h).__name__ for h in Bs.hooks]
+    out['cfg_B'] = cb_expected
+    out['do_coll_update'] = [bool(Bf.MS[0].levels[0].sweep.params.do_coll_update), bool(Bs.MS[0].levels[0].sweep.params.do_coll_update)]
+    return out
+
+
+SCENARIOS = {'shared': scenario_shared, 'case': scenario_case, 'alone': scenario_alone, 'interleave': scenario_interleave, 'pickle': scenario_pickle}
 
 
 def main():
